@@ -189,7 +189,14 @@ fn gen_rule(rng: &mut Rng, res: &str, seen_ref: &str) -> AnyRule {
                 ..Default::default()
             })
         }
-        3 => AnyRule::Cb(cb::Rule {
+        3 => {
+            // bucket counts derived from the interval as well (every divisor of the interval is a valid count,
+            // up to one bucket per millisecond)
+            let iv = *rng.pick(&[0u32, 1, 7, 150, 999, 1000, 1250, 1500, 10_000, 600_000]);
+            let bc = *rng.pick(&[0u32, 1, 3, 7, 125, 200, 1000, 600_001, iv, iv / 2, iv / 5, iv / 10, iv / 3]);
+            // (a ring of several 100 000 buckets is legal but only slow: keep derived counts <= 10 000)
+            let bc = if bc > 10_000 && bc != 600_001 { bc / 100 } else { bc };
+            AnyRule::Cb(cb::Rule {
             resource: if rng.chance(1, 15) { String::new() } else { res.to_string() },
             strategy: *rng.pick(&[
                 cb::BreakerStrategy::SlowRequestRatio,
@@ -200,12 +207,13 @@ fn gen_rule(rng: &mut Rng, res: &str, seen_ref: &str) -> AnyRule {
             ]),
             retry_timeout_ms: *rng.pick(&[0u32, 1, 1000, 600_000]),
             min_request_amount: *rng.pick(&[0u64, 1, 1_000_000]),
-            stat_interval_ms: *rng.pick(&[0u32, 1, 7, 1000, 600_000]),
-            stat_sliding_window_bucket_count: *rng.pick(&[0u32, 1, 3, 7, 1000, 600_001]),
+            stat_interval_ms: iv,
+            stat_sliding_window_bucket_count: bc,
             max_allowed_rt_ms: *rng.pick(&[0u64, 50, 1_000_000]),
             threshold: *rng.pick(&[0.0, 0.5, 1.0, 1.5, 3.0, 1e6, -1.0, f64::NAN]),
             ..Default::default()
-        }),
+        })
+        }
         _ => AnyRule::Sys(system::Rule {
             metric_type: *rng.pick(&[
                 system::MetricType::Load,
